@@ -31,6 +31,23 @@ class _Subst(ast.NodeTransformer):
         return node
 
 
+def _canon_membership(stmt, table):
+    """`if K in T: A else: B` and `if not K not in T` etc. are written in the one form `if K not in T: B else: A` (a polarity swap of the test
+    with swapped branches is the same statement)"""
+    if not (isinstance(stmt, ast.If) and stmt.orelse):
+        return stmt
+    test, neg = stmt.test, False
+    while isinstance(test, ast.UnaryOp) and isinstance(test.op, ast.Not):
+        test, neg = test.operand, not neg
+    if not (isinstance(test, ast.Compare) and len(test.ops) == 1 and isinstance(test.ops[0], (ast.In, ast.NotIn))
+            and ast.unparse(test.comparators[0]) == table):
+        return stmt
+    absent_first = isinstance(test.ops[0], ast.NotIn) != neg
+    canon_test = ast.Compare(left=test.left, ops=[ast.NotIn()], comparators=test.comparators)
+    body, orelse = (stmt.body, stmt.orelse) if absent_first else (stmt.orelse, stmt.body)
+    return ast.fix_missing_locations(ast.If(test=canon_test, body=body, orelse=orelse))
+
+
 def _prop_return(cls, name):
     fn = next(i for i in cls.body if isinstance(i, ast.FunctionDef) and i.name == name)
     body = _body(fn)
@@ -68,6 +85,7 @@ def unit_Reasm():
     key_lean = P.FnTranslator(ctx).expr(key)
     skeleton = []
     for s in stmts:
+        s = _canon_membership(s, table)
         t = ast.unparse(s).replace(texts[0], "K").replace(table, "T")
         skeleton.append(" ; ".join(x.strip() for x in t.splitlines()))
 
